@@ -121,6 +121,9 @@ func leakReport(base int) string {
 	if len(left) == 0 {
 		return "" // whatever is left does not belong to the library
 	}
+	if os.Getenv("VERIF_DEBUG_LEAK") != "" {
+		fmt.Printf("LEAKDUMP\n%s\nENDLEAKDUMP\n", buf)
+	}
 	if len(left) > 4 {
 		left = left[:4]
 	}
